@@ -319,6 +319,21 @@ def install(eng: E.Engine, classes: Classes, inline_props=True):
     eng.contracts["member"] = member
 
 
+def constructor(classes: Classes, cls: str):
+    """`Cls(args...)` for a plain class of the repo: a fresh heap object initialised by the REAL __init__ body."""
+    def c(eng, st, args, kw):
+        d = classes.member(eng.lat, cls, "__init__")
+        if d is None or d.kind != "method":
+            raise E.Undecided(f"no __init__ for {cls}")
+        addr = st.alloc(E.HeapObj(cls, {}))
+        obj = E.VObj(addr)
+        out = []
+        for s, v in eng.call_function(E.VFunc(d.node, dict(eng.globals), None, "__init__"), [obj] + list(args), kw, st):
+            out.append((s, v if isinstance(v, E.VExc) else obj))
+        return out
+    return c
+
+
 def inline_method(node):
     def c(eng, st, args, kw):
         return eng.call_function(E.VFunc(node, dict(eng.globals), None, node.name), args, kw, st)
